@@ -1,9 +1,12 @@
 #!/bin/bash
 # Usage: try_seeded.sh <patch.diff> <PROP> [extra check args]
-# Applies the patch to /repo, runs the check, reverts straight afterwards.
-P=$1; PROP=$2; shift 2
-cd /repo && git status --porcelain --untracked-files=no | grep -q . && { echo "/repo not clean"; exit 2; }
-git -C /repo apply $P || exit 2
-cd /verif && timeout 3000 ./check $PROP --no-evidence "$@" 2>&1 | grep -v "Warning\|warnings.warn\|self._y\|KNOWN-FINDING" | grep "seed\|VIOLATION\|done\|HARNESS" | cut -c1-330
-git -C /repo checkout -- .
-git -C /repo status --porcelain --untracked-files=no | grep -q . && echo "WARNING: /repo not clean after revert"
+# Runs the check against the patch WITHOUT touching /repo's working tree: a
+# scratch worktree of /repo's HEAD gets the patch, the check imports quimb from
+# it (PYTHONPATH), and the worktree is removed afterwards.  (Equivalent to
+# `git -C /repo apply`; safe while other runs import /repo.)
+P=$(readlink -f $1); PROP=$2; shift 2
+WT=/tmp/wt_try_$$
+git -C /repo worktree add -q --detach $WT HEAD || exit 2
+git -C $WT apply $P || { git -C /repo worktree remove --force $WT; exit 2; }
+cd /verif && PYTHONPATH=$WT VERIF_REPO_COPY=1 timeout 3000 ./check $PROP --no-evidence "$@" 2>&1 | grep -v "Warning\|warnings.warn\|self._y\|KNOWN-FINDING" | grep "seed\|VIOLATION\|done\|HARNESS" | cut -c1-330
+git -C /repo worktree remove --force $WT
